@@ -128,7 +128,7 @@ type RecOpts struct {
 	Slotty bool
 	// Density of fields: probability numerator out of 100 that a given field is present.
 	Density int
-	// LongStrings allows strings up to 1000 bytes.
+	// LongStrings allows strings up to 1000 bytes, a few up to 4090.
 	LongStrings bool
 }
 
@@ -149,6 +149,9 @@ func randText(r *core.Rng, o RecOpts) string {
 		n = r.Range(61, 400)
 	default:
 		n = r.Range(401, 1000)
+		if r.Chance(1, 3) {
+			n = r.Range(1001, 4090) // up to the 4 KiB read window, on every path
+		}
 	}
 	b := make([]byte, n)
 	for i := range b {
